@@ -355,8 +355,10 @@ def _history_cases(draw, tier):
                             # how the new channel is handed over: a new
                             # array, the SAME array object refilled, or
                             # (MISO schemes) a 1-D vector
-                            how=draw(st.sampled_from(["new", "new", "inplace",
-                                                      "oned"]))))
+                            how=draw(st.sampled_from(
+                                ["oned", "oned", "new", "inplace"]
+                                if Nr == 1 and scheme in ("MRT", "Alamouti")
+                                else ["new", "new", "inplace", "oned"]))))
         else:
             ops.append(dict(op=draw(st.sampled_from(["use", "use",
                                                      "decode_only"]))))
